@@ -91,7 +91,10 @@ static void park(int me) { while (sem_wait(&g_ctx[me]->sem) != 0) {} }
 static void switch_to(int me, int next) { g_cur = next; if (next == me) return; sem_post(&g_ctx[next]->sem); if (me >= 0 && g_ctx[me]->st != FIN) park(me); }
 static void switch_from(int me, bool forced) {   // choose next; block me unless chosen
   int next = pick(me, forced);
-  if (next < 0) { if (!all_finished()) g_deadlock = true; finish_all(); if (me >= 0 && g_ctx[me]->st != FIN) { for (;;) park(me); } return; }
+  if (next < 0) { if (!all_finished()) { g_deadlock = true;
+      if (getenv("VS_DEBUG")) { for (size_t i = 0; i < g_ctx.size(); ++i) fprintf(stderr, "vsched deadlock: thread %zu state %d on %p\n", i, (int)g_ctx[i]->st, g_ctx[i]->on);
+        for (auto& kv : g_owner) if (kv.second.owner >= 0) fprintf(stderr, "  mutex %p owner %d count %d kind %d\n", kv.first, kv.second.owner, kv.second.count, ((const pthread_mutex_t*)kv.first)->__data.__kind); } }
+    finish_all(); if (me >= 0 && g_ctx[me]->st != FIN) { for (;;) park(me); } return; }
   switch_to(me, next);
 }
 static void deliver_signals() {
